@@ -268,6 +268,27 @@ func ruleArith(c *Ctx, prefix string) {
 				return
 			}
 			if strings.HasSuffix(ex.Canon(st, ret.Results[1]).S, "allocators.ErrOverflow") {
+				// "overflow only when the result needs more than 64 / 128 bits": the exit is justified by
+				// one of the conditions that mean exactly that - a limb operation's carry / borrow / high
+				// word is non-zero, a shifted-out part is non-zero, the high limb exceeds what the shift
+				// leaves room for, or the unit is zero with a non-zero count
+				just := false
+				for _, h := range st.HistStrings() {
+					h = stripAt(h)
+					switch {
+					case strings.Contains(h, "math/bits.") && strings.Contains(h, "#") && strings.HasSuffix(h, "∉ {0}"):
+						just = true
+					case strings.Contains(h, " >> ") && strings.HasSuffix(h, "∉ {0}"):
+						just = true
+					case strings.Contains(h, "math/bits.Sub64") && strings.Contains(h, ">= (1 << "):
+						just = true
+					case regexp.MustCompile(`^\$\d+ == 0$`).MatchString(h):
+						just = true
+					}
+				}
+				if !just {
+					errZero = append(errZero, fmt.Sprintf("ErrOverflow is returned at %s on a path that established no overflow condition of a recognised kind (non-zero carry / borrow / high word / shifted-out part, high limb ≥ 2^(128−p), zero unit): a representable result may be refused", c.P.InstrPos(in)))
+				}
 				nOverflowExits++
 				r0 := ex.Canon(st, ret.Results[0]).S
 				rv := ex.ResolveDeep(st, ret.Results[0])
